@@ -80,13 +80,21 @@ def _script(sx, nmsg, one_byte):
     return ops
 
 
-def _check_ack(sx, data, src, dst, tag):
+def _next_seq(prev):
+    from sx.core import Ite
+    return Ite(prev == 191, 1, prev + 1)
+
+
+def _check_ack(sx, data, src, dst, tag, expect_seq=None):
     off = content_offset(src, dst)
     sx.check(len(data) == off + 6 + 8 + 8, f"pu.ack-length.{tag}")
     sx.check(data[off:off + 5] == b"STATQ", f"pu.ack-verb.{tag}")
     seq = data[off + 5]
     sx.observe("ackseq", seq)
     sx.check((seq >= 1) & (seq <= 191), f"pu.ack-sequence-range.{tag}")
+    if expect_seq is not None:
+        # nothing else draws from this connection's counter in these scenarios
+        sx.check(seq == expect_seq, f"pu.ack-carries-the-next-protocol-number.{tag}", lambda: f"{seq} vs {expect_seq}")
     sx.check(data[:off] == b"<PACKT><SRCCN>" + src + b"</SRCCN><DESCN>" + dst + b"</DESCN><DATAS>",
              f"pu.ack-addressing.{tag}")
 
@@ -104,7 +112,7 @@ def async_client(nmsg, one_byte=False):
         spa = GeckoAsyncSpa(CLI_ID, GeckoAsyncSpaDescriptor(SRC_ID, "spa", DEST), None, ev)
         proto = GeckoAsyncUdpProtocol(None, DEST)
         proto.transport = FakeTransport()
-        proto._sequence_counter_protocol = sx.int_("protocol_counter", 0, 191)
+        proto._sequence_counter_protocol = seqno = sx.int_("protocol_counter", 0, 191)
         spa._protocol = proto
         blk = sx.block("block", 1024)
         spa.struct.set_status_block(blk)
@@ -258,7 +266,7 @@ def threaded_client(nmsg, one_byte=False):
         from geckolib.spa import GeckoSpa
         spa = GeckoSpa(_Desc())
         spa._lock = _MonLock()
-        spa._sequence_counter_protocol = sx.int_("protocol_counter", 0, 191)
+        spa._sequence_counter_protocol = seqno = sx.int_("protocol_counter", 0, 191)
         blk = sx.block("block", 1024)
         spa.struct.set_status_block(blk)
         handler = [h for h in spa._receive_handlers if type(h).__name__ == "GeckoPartialStatusBlockProtocolHandler"]
@@ -280,11 +288,65 @@ def threaded_client(nmsg, one_byte=False):
                 sx.check(len(spa._send_handlers) == nsent, "pu.one-ack-per-update", lambda: str(len(spa._send_handlers)))
                 hh, dest = spa._send_handlers[-1]
                 sx.check(dest == SENDER, "pu.ack-destination")
-                _check_ack(sx, hh.send_bytes, CLI_ID, SRC_ID, "threaded")
+                seqno = _next_seq(seqno)
+                _check_ack(sx, hh.send_bytes, CLI_ID, SRC_ID, "threaded", seqno)
             else:
                 sx.check(len(spa._send_handlers) == nsent, "pu.no-ack-for-statq")
             sx.check(h.changes == [], "pu.threaded-pending-list-empty-after-step")
         sx.check_bytes_equal(spa.struct.status_block, ref, "pu.block-is-fold-of-updates")
+    return scenario
+
+
+def two_connections(threaded):
+    """two client instances in one process, one after the other (a reconnect, or a second spa): the second
+    one's block is the fold of ITS updates only, whatever the first one received (round-7 seeded change:
+    state shared between instances)"""
+    def scenario(sx):
+        def mk(tag):
+            if threaded:
+                from geckolib.spa import GeckoSpa
+                spa = GeckoSpa(_Desc())
+                spa._lock = _MonLock()
+                blk = sx.block("block" + tag, 1024)
+                spa.struct.set_status_block(blk)
+
+                def feed(data):
+                    spa.dispatch_recevied_data(data, SENDER)
+                return spa, blk, feed, (lambda: len(spa._send_handlers))
+            from geckolib.async_spa import GeckoAsyncSpa
+            from geckolib.driver import GeckoAsyncUdpProtocol, GeckoAsyncPartialStatusBlockProtocolHandler
+            from geckolib.async_spa_descriptor import GeckoAsyncSpaDescriptor
+            from sx.vloop import VLoop
+
+            async def ev(*a, **k):
+                pass
+            vl = VLoop()
+            spa = GeckoAsyncSpa(CLI_ID, GeckoAsyncSpaDescriptor(SRC_ID, "spa", DEST), None, ev)
+            proto = GeckoAsyncUdpProtocol(None, DEST)
+            proto.transport = FakeTransport()
+            spa._protocol = proto
+            blk = sx.block("block" + tag, 1024)
+            spa.struct.set_status_block(blk)
+            h = GeckoAsyncPartialStatusBlockProtocolHandler(proto, async_on_handled=spa._async_on_partial_status_update)
+
+            def feed(data):
+                vl.run_until_complete(h.async_handle(data, SENDER), max_time=vl.time() + 5)
+                vl.run_until_complete(h.async_handled(SENDER), max_time=vl.time() + 5)
+            return spa, blk, feed, (lambda: len(proto.transport.sent))
+        refs = []
+        for tag in ("A", "B"):
+            spa, ref, feed, nacks = mk(tag)
+            nmsg = 1 + sx.choice("msgs" + tag, 2)
+            for k in range(nmsg):
+                chg = [(sx.int_(f"p{tag}{k}_{i}", 0, 1022), sx.bytes_(f"v{tag}{k}_{i}", 2))
+                       for i in range(1 + sx.choice(f"count{tag}{k}", 2))]
+                feed(_statp(chg))
+                for pos, val in chg:
+                    ref = _apply(ref, pos, val)
+                sx.check(nacks() == k + 1, "pu.one-ack-per-update", lambda: str(nacks()))
+            refs.append((spa, ref))
+        for spa, ref in refs:
+            sx.check_bytes_equal(spa.struct.status_block, ref, "pu.block-is-fold-of-its-own-connections-updates")
     return scenario
 
 
@@ -303,5 +365,7 @@ def units(tier):
     yield Unit("threaded.overlapping-changes", threaded_client("overlap"), fresh_checks=True)
     yield Unit("async.refresh-interleaved", refresh_interleaved, fresh_checks=True)
     yield Unit("async.burst-through-consumer", burst_through_consumer, fresh_checks=True)
+    yield Unit("async.two-connections", two_connections(False), fresh_checks=True)
+    yield Unit("threaded.two-connections", two_connections(True), fresh_checks=True)
     yield Unit("async.one-byte-change", async_client(1, True), fresh_checks=True)
     yield Unit("threaded.one-byte-change", threaded_client(1, True), fresh_checks=True)
